@@ -190,7 +190,7 @@ func vpNoPanic(fr *frame, a []value) (res value) {
 			return
 		}
 		if gp, ok := p.(goroutinePanic); ok {
-			G.recordPanic(label, "panic in goroutine: "+panicMessage(gp.p), "goroutine", nil)
+			G.recordPanic(label, "panic in goroutine: "+panicMessage(gp.p), "goroutine:"+lastPanicSite, nil)
 			panic(pathEnd{"ok", "panic in goroutine (recorded)"})
 		}
 		if isPathEnd(p) {
